@@ -141,3 +141,29 @@ def report_rejections(c, r, clause, sigprefix, what):
                     replay=rej)
     if r.get("unvalidated_lines"):
         c.notes.append("%s: %d trace lines left unvalidated after repeated rejections" % (what, r["unvalidated_lines"]))
+
+
+# ---------------------------------------------------------------- ./check Cnn --replay <file>
+def load_replay(c):
+    """Returns the reset line (scenario parameters + script) stored in a replay file written by c.violation."""
+    with open(c.replay) as f:
+        d = json.load(f)
+    rp = d.get("replay") or {}
+    if "first" in rp:
+        rp = rp["first"]
+    scn = rp.get("scenario")
+    if not scn:
+        raise vlib.Infra("replay file %s holds no recorded scenario" % c.replay)
+    return d, scn[0]
+
+
+def finish_replay(c, r, what):
+    """Verdict of a replay run: prints the outcome without touching evidence/."""
+    if r["rejections"]:
+        rej = r["rejections"][0]
+        print("VIOLATION property=%s replay=%s" % (c.pid, c.replay))
+        print("  reproduced: %s trace rejected at line %d %s; history: %s" % (
+            what, rej["line"], json.dumps(rej["record"]), scenario_text(rej["scenario"][:rej["line"]], 60)))
+        return 1
+    print("%s: replay of %s conformed (%d lines validated)" % (c.pid, c.replay, r["validated_lines"]))
+    return 0
